@@ -19,6 +19,18 @@ class CFG:
             for s in b['succs']:
                 if s is not None:
                     self.preds[s].append(b['id'])
+        # blocks that became unreachable once dead edges are dropped contribute no predecessor edges either
+        live = {self.entry}
+        work = [self.entry]
+        while work:
+            x = work.pop()
+            for s_ in self.blocks[x]['succs']:
+                if s_ is not None and s_ not in live:
+                    live.add(s_)
+                    work.append(s_)
+        self.live = live
+        for k_ in list(self.preds):
+            self.preds[k_] = [p_ for p_ in self.preds[k_] if p_ in live]
         # element index: node id -> (block, idx) of first occurrence
         self.elem_at = {}
         for b in c['blocks']:
